@@ -1,6 +1,6 @@
 """C20 - permutation and subset-sum helpers enumerate exactly and answer correctly."""
 import itertools, collections, importlib
-from mc.engine import Sub, HSystem, hsub, canon
+from mc.engine import Sub, HSystem, hsub, canon, pristine
 
 
 def pts_perm(tier):
@@ -159,7 +159,7 @@ class SubsetSys(HSystem):
     def canon(self, o):
         K = o['K']
         return (canon(K.exactsum.__defaults__), canon(K.dynprog.__defaults__), canon(getattr(K.exactsum, '__dict__', {})), o['ver'],
-                len(o['last']) if isinstance(o['last'], list) else repr(o['last']))
+                repr(o['last']))
 
     def events(self, o):
         return list(self.CALLS) + [('shared-list', 'exactsum', 43), ('shared-list', 'dynprog', 43), ('shared-list', 'exactsum', 5), ('shared-list', 'dynprog', 12),
@@ -195,12 +195,14 @@ class SubsetSys(HSystem):
             return
         items = items_of(ev[1])
         judge_subset(ctx, 'C20/history/%s' % ev[0], items, ev[2], res, ev[0] == 'dynprog')
-        K2 = fresh_knapsack()
-        try:
-            v = getattr(K2, ev[0])(items_of(ev[1]), ev[2])
-            first = ('ok', list(v) if isinstance(v, list) else v)
-        except Exception as e:
-            first = ('exc', type(e).__name__)
+        def first_answer():
+            K2 = fresh_knapsack()
+            try:
+                v = getattr(K2, ev[0])(items_of(ev[1]), ev[2])
+                return ('ok', list(v) if isinstance(v, list) else v)
+            except Exception as e:
+                return ('exc', type(e).__name__)
+        first = pristine(first_answer)      # in a forked child: the module under test is not touched by the oracle
         ctx.eq('C20/history/%s/answer-depends-on-earlier-calls' % ev[0], res, first)
 
 
